@@ -23,7 +23,34 @@ def _parsers():
         ("SensorModality", SensorModality, SensorModality.from_value, 0),
         ("ShapeType", ShapeType, ShapeType.from_value, 0),
         ("MatchingLabelPolicy", MatchingLabelPolicy, MatchingLabelPolicy.from_str, 0),
+        # the same table at the place where a user writes the string: the evaluation configuration
+        ("MatchingLabelPolicy", MatchingLabelPolicy, _policy_via_config, 0),
     ]
+
+
+_CFG_TMP = []
+
+
+def _policy_via_config(s):
+    """matching_label_policy as PerceptionEvaluationConfig resolves it (with and without the legacy allow_matching_unknown flag beside it)"""
+    import shutil
+    import tempfile
+
+    from perception_eval.config import PerceptionEvaluationConfig
+
+    got = []
+    for legacy in ({}, {"allow_matching_unknown": True}):
+        tmp = tempfile.mkdtemp(prefix="verif_enum_")
+        try:
+            d = dict({"evaluation_task": "detection", "target_labels": ["car"], "label_prefix": "autoware", "max_x_position": 10.0, "max_y_position": 10.0,
+                      "center_distance_thresholds": [1.0], "plane_distance_thresholds": [1.0], "iou_2d_thresholds": [0.5], "iou_3d_thresholds": [0.5],
+                      "min_point_numbers": [0], "matching_label_policy": s}, **legacy)
+            got.append(PerceptionEvaluationConfig([], "base_link", tmp, d).label_params["matching_label_policy"])
+        finally:
+            shutil.rmtree(tmp, ignore_errors=True)
+    if got[0] is not got[1]:
+        return "policy depends on the legacy flag: %r / %r" % (got[0], got[1])
+    return got[0]
 
 
 def _inputs(name, members, rng):
@@ -140,6 +167,8 @@ def run(ctx: Ctx):
         events.append(dict(tid=tid, ev="Table", enum=name, members=[b(m.value) for m in members]))
         info[tid] = dict(enum=name, table=[m.value for m in members])
         for s in _inputs(name, members, rng):
+            if fn is _policy_via_config and not s:
+                continue      # an empty entry means "not configured"
             tid += 1
             try:
                 r = fn(s)
